@@ -42,6 +42,11 @@ T = {
          "Every configuration is parsed by the real HTMLParser; documentEncoding must equal the documented precedence (BOM > override > transport > prescan meta > parent unless UTF-16 > likely > default > windows-1252; UTF-16 in meta means UTF-8; late meta while tentative restarts) and the tree must equal html5lib's parse of the bytes decoded by Python's codec for the reported encoding. The prescan is driven at its narrowest seam (detectEncodingMeta) on every short byte word.",
          "webencodings' label table and Python's codecs are trusted; six modelled prescan deviations and the dropped truncated final byte sequence are listed known findings; chardet is absent",
          "6/C06"),
+ "C08": ("model_checking",
+         "explicit-state BFS over markup/attribute/text themes (key = parser state + complete final tree); every distinct tree is walked by both walkers and serialized with 8 option sets; plus flat exhaustive enumeration of hand-built streams (all attribute values and texts <=2-3 over 12-13 letter alphabets in 11 element contexts) under the FULL cross product of 1296 serializer option combinations; oracle = ref/retokenize.py (reference tokenizer + content-model switches from the known namespaces) reading the output in place, or a reported serialization error",
+         "Each output is re-read lexically by an independent tokenizer written from the standard and must yield exactly the tags, attribute (qualified name, value) sets, text, comments and doctype of the stream it came from; otherwise serializer.errors must be non-empty and strict mode must raise.",
+         "ref/tokenizer.py is trusted; names are compared ASCII-case-insensitively as the tokenizer reads them; trees are built (and re-read) with scripting off; a UnicodeEncodeError from the serializer counts as a reported error (pinned by the suite); seven root causes are listed known findings",
+         "6/C08"),
  "C11": ("model_checking",
          "explicit-state BFS over markup-token words, key = (suspended parser state, digest of the complete final tree); every explored word is built with etree (full tree / root element / fragment) and dom (document / documentElement / fragment), namespacing on and off, and walked by the real walkers from each start node; oracle = lint filter + own well-formedness checker + tree rebuilt from the stream == direct traversal + etree stream == dom stream",
          "Walkers are pure traversals, so coverage is counted in distinct complete trees: all trees reachable by words of eight themed alphabets up to the stated depth (document mode and one fragment container per theme) are walked 12 ways each. The rebuilt-tree oracle is independent of html5lib (direct traversal of minidom / ElementTree objects).",
